@@ -16,6 +16,7 @@ import operator
 from collections import OrderedDict
 
 import petl
+from petl.util.materialise import cache as _pcache
 
 HDR = ('a', 'b', 'c')
 SAMPLE = [HDR, (2, 20, 'z,w'), (1, 10, 'x,y'), (2, 21, 'u,v')]
@@ -200,3 +201,73 @@ E('fromdicts-roundtrip', lambda t: petl.fromdicts(list(petl.dicts(t)), header=li
 
 NAMES = [u[0] for u in U]
 BY_NAME = dict((u[0], u) for u in U)
+
+
+# ---------------------------------------------------------------------------
+# multi-input operators as unary closures over a fixed second table
+OTHER = [('a', 'z'), (1, 'p'), (2, 'q'), (2, 'r'), (3, 's')]
+SAME = [HDR, (2, 20, 'z,w'), (5, 50, 'm,n')]
+
+B = []
+
+
+def EB(name, make, **opts):
+    B.append((name, make, opts))
+
+
+for _op in ('join', 'leftjoin', 'rightjoin', 'outerjoin', 'lookupjoin', 'antijoin'):
+    EB(_op + '-L', lambda t, _op=_op: getattr(petl, _op)(t, OTHER, key='a'))
+    EB(_op + '-R', lambda t, _op=_op: getattr(petl, _op)(OTHER, t, key='a'))
+    EB(_op + '-L-buffered-nocache', lambda t, _op=_op: getattr(petl, _op)(t, OTHER, key='a', buffersize=1, cache=False))
+for _op in ('hashjoin', 'hashleftjoin', 'hashrightjoin'):
+    EB(_op + '-L', lambda t, _op=_op: getattr(petl, _op)(t, OTHER, key='a'), stream='left')
+    EB(_op + '-R', lambda t, _op=_op: getattr(petl, _op)(OTHER, t, key='a'), stream='right')
+    EB(_op + '-L-nocache', lambda t, _op=_op: getattr(petl, _op)(t, OTHER, key='a', cache=False))
+for _op in ('hashlookupjoin', 'hashantijoin'):
+    EB(_op + '-L', lambda t, _op=_op: getattr(petl, _op)(t, OTHER, key='a'), stream='left')
+    EB(_op + '-R', lambda t, _op=_op: getattr(petl, _op)(OTHER, t, key='a'))
+EB('crossjoin-L', lambda t: petl.crossjoin(t, OTHER))
+EB('crossjoin-R', lambda t: petl.crossjoin(OTHER, t))
+for _op in ('complement', 'intersection', 'recordcomplement', 'hashcomplement', 'hashintersection'):
+    EB(_op + '-L', lambda t, _op=_op: getattr(petl, _op)(t, SAME))
+    EB(_op + '-R', lambda t, _op=_op: getattr(petl, _op)(SAME, t))
+EB('diff-L', lambda t: petl.diff(t, SAME), kind='pair')
+EB('recorddiff-R', lambda t: petl.recorddiff(SAME, t), kind='pair')
+EB('complement-strict-buffered', lambda t: petl.complement(t, SAME, strict=True, buffersize=1))
+EB('mergesort-other', lambda t: petl.mergesort(t, SAME, key='a', buffersize=1))
+EB('merge-other', lambda t: petl.merge(t, SAME, key='a'))
+EB('cat-other', lambda t: petl.cat(t, OTHER), stream=True)
+EB('stack-other', lambda t: petl.stack(t, OTHER), stream=True)
+EB('annex-other', lambda t: petl.annex(t, OTHER), stream=True)
+EB('addcolumn-values', lambda t: petl.addcolumn(t, 'z', petl.values(OTHER, 'z')), stream=True)
+# sort / cache configurations that keep state between iterators
+EB('sort-memcache', lambda t: petl.sort(t, 'a'))
+EB('sort-filecache-1', lambda t: petl.sort(t, 'a', buffersize=1))
+EB('sort-filecache-2', lambda t: petl.sort(t, 'a', buffersize=2))
+EB('sort-filecache-reverse', lambda t: petl.sort(t, 'a', buffersize=1, reverse=True))
+EB('sort-nocache', lambda t: petl.sort(t, 'a', cache=False))
+EB('sort-nocache-buffered', lambda t: petl.sort(t, 'a', buffersize=1, cache=False))
+EB('distinct-buffered', lambda t: petl.distinct(t, 'a', buffersize=1))
+EB('aggregate-buffered', lambda t: petl.aggregate(t, 'a', len, buffersize=2))
+EB('cache-all', lambda t: petl.wrap(t).cache())
+EB('cache-1', lambda t: petl.wrap(t).cache(1))
+EB('cache-2', lambda t: petl.wrap(t).cache(2))
+EB('cache-3', lambda t: petl.wrap(t).cache(3))
+EB('cache-of-sort', lambda t: _pcache(petl.sort(t, 'a', buffersize=1)))
+EB('progress', lambda t: petl.progress(t, 2, out=_Sink()), stream=True)
+EB('clock', lambda t: petl.clock(t), stream=True)
+
+
+class _Sink(object):
+    def write(self, s):
+        pass
+
+    def flush(self):
+        pass
+
+
+ALL = U + B
+ALL_BY_NAME = dict((e[0], e) for e in ALL)
+STATEFUL = [e[0] for e in B if e[0].startswith(('sort-', 'cache', 'distinct-b', 'aggregate-b', 'hash', 'join', 'leftjoin',
+                                                'outerjoin', 'lookupjoin', 'antijoin', 'rightjoin', 'complement',
+                                                'intersection', 'mergesort', 'merge-'))]
